@@ -37,6 +37,12 @@ func newVfRelayRig(tmux bool, paneWidth int32) *vfRelayRig {
 	return g
 }
 
+// close ends the relay's pump goroutines (they stop at EOF), so that thousands of cases per process do not pile up.
+func (g *vfRelayRig) close() {
+	g.cliIn.close()
+	g.srvOut.close()
+}
+
 func vfWaitFor(rec *vfRecorder, from int, marker string, limit time.Duration) (int, bool) {
 	deadline := time.Now().Add(limit)
 	for {
@@ -81,6 +87,7 @@ type vfC14Round struct {
 
 func vfC14Run(cs vfC14Case) string {
 	g := newVfRelayRig(cs.Tmux, cs.PaneWidth)
+	defer g.close()
 	rounds := append([]vfC14Round{{Action: cs.Action, Args: cs.Args, ServerTmux: cs.ServerTmux, Download: cs.Download}}, cs.More...)
 	for i, r := range rounds {
 		one := cs
@@ -433,6 +440,7 @@ func TestVF_C14ServerDies(t *testing.T) {
 		}
 		cs := map[string]any{"scenario": "server dies between ACT and CFG", "relay_in_tmux": tmux}
 		g := newVfRelayRig(tmux, 80)
+		defer g.close()
 		g.srvOut.feed([]byte("\x1b7\x07::TRZSZ:TRANSFER:R:1.1.8:1234567890100:0\r\n"))
 		if _, ok := vfWaitFor(g.cliOut, 0, "#R", 3*time.Second); !ok {
 			t.Fatalf("trigger not forwarded")
